@@ -299,7 +299,7 @@ func init() {
 		Exec:      c12Exec,
 		Judge:     c12Judge,
 		Describe:  c12Describe,
-		QuickN:    3000,
+		QuickN:    3000*2,
 		ThoroughN: 150000,
 	})
 }
